@@ -257,9 +257,9 @@ impl Property for C14 {
         // drain: no loss, no duplication, pipes do not mix
         for pi in 0..pipes.len() {
             let mut guard = 0;
-            while !pipes[pi].2.is_empty() && guard < 64 {
+            while !pipes[pi].2.is_empty() && guard < 400 {
                 guard += 1;
-                let want = 64u64;
+                let want = 256u64;
                 ax.mem_write_bytes(buf, &vec![0xaa; want as usize]).unwrap();
                 let (r, _) = sys(&mut ax, 0, pipes[pi].0, buf, want);
                 match r {
